@@ -81,6 +81,7 @@ func genTrickle(t *rapid.T) Script {
 	if rapid.Bool().Draw(t, "withmax") {
 		s.Max = s.Size + rapid.SampledFrom([]int{0, 1, 5}).Draw(t, "maxextra")
 	}
+	s.Scribble = rapid.Bool().Draw(t, "scribble")
 	s.Settle = rapid.Bool().Draw(t, "settle")
 	return s
 }
